@@ -147,6 +147,189 @@ and parse_until (close : string) (toks : string list) : val0 list * string list 
   | _ -> let (v, r1) = parse_val toks in
          let (vs, r2) = parse_until close r1 in (v :: vs, r2)
 
+(* ---- encoder-side values (rval) ---------------------------------------------------------- *)
+let is_struct_rval (v : rval) : bool =
+  match v with
+  | RNone | RClass _ | RCall _ | RRef _ | RBig _ | RStruct _ | RDict _ -> true
+  | _ -> false
+
+let sfield name exported tag v = SField (bytes_of_string name, exported, bytes_of_string tag, v)
+let rint i = RInt (z_of_int i)
+
+let rec parse_rval (toks : string list) : rval * string list =
+  match toks with
+  | [] -> failwith "rvalue expected"
+  | t :: rest ->
+    let hexarg pfx = bytes_of_hex (after t pfx) in
+    if t = "NIL" then (RInvalid, rest)
+    else if t = "N" then (RNone, rest)
+    else if t = "T" then (RBool true, rest)
+    else if t = "F" then (RBool false, rest)
+    else if t = "chan" then (RUnsup UChan, rest)
+    else if t = "func" then (RUnsup UFunc, rest)
+    else if t = "uptr" then (RUnsup UUintptr, rest)
+    else if t = "unsafeptr" then (RUnsup UUnsafePointer, rest)
+    else if starts t "x32:" then (RUnsup UComplex64, rest)
+    else if starts t "x:" then (RUnsup UComplex128, rest)
+    else if starts t "i:" || starts t "i8:" || starts t "i16:" || starts t "i32:" || starts t "i0:" then
+      (RInt (z_of_dec (List.nth (String.split_on_char ':' t) 1)), rest)
+    else if starts t "u:" || starts t "u8:" || starts t "u16:" || starts t "u32:" || starts t "u0:" then
+      (RUint (z_of_dec (List.nth (String.split_on_char ':' t) 1)), rest)
+    else if starts t "f32:" then (RFloat (f32_to_f64 (n_of_hex (after t "f32:"))), rest)
+    else if starts t "f:" then (RFloat (n_of_hex (after t "f:")), rest)
+    else if starts t "ns:" then (RStr (SNamed, hexarg "ns:"), rest)
+    else if starts t "s:" then (RStr (SPlain, hexarg "s:"), rest)
+    else if starts t "y:" then (RStr (SUnicode, hexarg "y:"), rest)
+    else if starts t "b:" then (RStr (SBytes, hexarg "b:"), rest)
+    else if starts t "z:" then (RStr (SByteString, hexarg "z:"), rest)
+    else if starts t "na:" then (RByteSeq (hexarg "na:"), rest)
+    else if starts t "nb:" then (RByteSeq (hexarg "nb:"), rest)
+    else if starts t "a:" then (RByteSeq (hexarg "a:"), rest)
+    else if starts t "A:" then (RByteSeq (hexarg "A:"), rest)
+    else if starts t "Lv:" then (RBig (z_of_dec (after t "Lv:")), rest)
+    else if starts t "L:" then (RPtr (true, None, RBig (z_of_dec (after t "L:"))), rest)
+    else if starts t "nilp:" then (RNilPtr, rest)
+    else if starts t "g:" then begin
+      match String.split_on_char ':' t with
+      | [_; m; nm] -> (RClass (bytes_of_hex m, bytes_of_hex nm), rest)
+      | _ -> failwith "bad class" end
+    else if starts t "U:" then
+      (* harness type UserObj{Tag int}: an ordinary struct with one exported field *)
+      (RStruct [sfield "Tag" true "" (RInt (z_of_dec (after t "U:")))], rest)
+    else if t = "t(" then let (l, r) = parse_rvals ")" rest in (RTuple l, r)
+    else if t = "l[" || t = "ar[" || t = "ts[" then let (l, r) = parse_rvals "]" rest in (RList l, r)
+    else if t = "m{" || t = "tm{" || t = "d{" then begin
+      let (l, r) = parse_rvals "}" rest in
+      let rec pairs l = match l with
+        | k :: v :: tl -> (k, v) :: pairs tl | [] -> [] | _ -> failwith "odd map literal" in
+      ((if t = "d{" then RDict (pairs l) else RMap (pairs l)), r) end
+    else if t = "C(" then begin
+      let (c, r1) = parse_rval rest in
+      let (a, r2) = parse_rval r1 in
+      match c, a, r2 with
+      | RClass (m, nm), RTuple args, ")" :: r3 -> (RCall (m, nm, args), r3)
+      | _ -> failwith "bad call" end
+    else if t = "R(" then begin
+      let (p, r1) = parse_rval rest in
+      match r1 with ")" :: r2 -> (RRef p, r2) | _ -> failwith "bad ref" end
+    else if t = "st{" then begin
+      let rec fields toks =
+        match toks with
+        | "}" :: r -> ([], r)
+        | "F" :: name :: tag :: r ->
+          let (v, r1) = parse_rval r in
+          let (fs, r2) = fields r1 in
+          let dash x = if x = "-" then [] else bytes_of_hex x in
+          (SField (dash name, true, dash tag, v) :: fs, r2)
+        | _ -> failwith "bad struct literal" in
+      let (fs, r) = fields rest in (RStruct fs, r) end
+    else if starts t "zoo:" then parse_zoo (after t "zoo:") rest
+    else if t = "p&(" then begin
+      let (v, r1) = parse_rval rest in
+      match r1 with ")" :: r2 -> (RPtr (is_struct_rval v, None, v), r2) | _ -> failwith "bad ptr" end
+    else if t = "P&(" then begin
+      let (pid, r0) = parse_rval rest in
+      let (v, r1) = parse_rval r0 in
+      match r1 with ")" :: r2 -> (RPtr (is_struct_rval v, Some pid, v), r2) | _ -> failwith "bad Ptr" end
+    else failwith ("bad rvalue token: " ^ t)
+and parse_rvals (close : string) (toks : string list) : rval list * string list =
+  match toks with
+  | [] -> failwith ("missing " ^ close)
+  | t :: rest when t = close -> ([], rest)
+  | _ -> let (v, r1) = parse_rval toks in
+         let (vs, r2) = parse_rvals close r1 in (v :: vs, r2)
+and parse_zoo (name : string) (toks : string list) : rval * string list =
+  let toks = (match toks with "(" :: r -> r | _ -> failwith "zoo: ( expected") in
+  let (args, rest) = parse_rvals ")" toks in
+  let nth i = List.nth args i in
+  let zooD v = RStruct [sfield "V" true "" v] in
+  let zooB x y z = RStruct [sfield "X" true "" x; sfield "y" false "" y; sfield "Z" true "" z] in
+  let nil_to d v = (match v with RInvalid -> d | _ -> v) in
+  let pad2 v = (match v with
+      | RStr (_, s) -> let l = List.length s in
+        let s2 = (if l >= 2 then [List.nth s 0; List.nth s 1] else s @ (if l = 1 then [n2b N0] else [n2b N0; n2b N0])) in
+        RByteSeq s2
+      | _ -> failwith "zoo F: g") in
+  let v = (match name with
+    | "A" -> RStruct [sfield "a" false "a" (nth 0); sfield "B" true "b" (nth 1)]
+    | "B" -> zooB (nth 0) (nth 1) (nth 2)
+    | "C" -> RStruct [sfield "zooB" false "" (zooB (nth 0) (nth 1) (nth 2)); sfield "W" true "" (nth 3)]
+    | "E" -> RStruct [sfield "ZooD" true "" (zooD (nth 0)); sfield "U" true "" (nth 1)]
+    | "F" -> RStruct [sfield "a" false "a" (nil_to (RList []) (nth 0));
+                      sfield "b" false "b" (RPtr (true, None, zooD (nth 1)));
+                      sfield "c" false "c" (nil_to (RMap []) (nth 2));
+                      sfield "d" false "d" (zooD (nth 3));
+                      sfield "e" false "e" (nth 4);
+                      sfield "f" false "f" (nil_to (RTuple []) (nth 5));
+                      sfield "g" false "g" (pad2 (nth 6))]
+    | "G" -> RStruct [sfield "A" true "k" (nth 0); sfield "B" true "k" (nth 1); sfield "C" true "" (nth 2)]
+    | "H" -> RStruct [sfield "a" false "a" (nth 0); sfield "b" false "b" (nth 1); sfield "c" false "c" (nth 2);
+                      sfield "d" false "d" (nth 3);
+                      sfield "e" false "e" (match nth 4 with RStr (_, s) -> RStr (SNamed, s) | x -> x)]
+    | _ -> failwith ("unknown zoo type " ^ name)) in
+  (v, rest)
+
+(* oracles read once from files named in the environment *)
+let isprint_ranges : (int * int) array =
+  match Sys.getenv_opt "VERIF_ISPRINT" with
+  | None -> [||]
+  | Some path ->
+    let ic = open_in path in
+    let line = (try input_line ic with End_of_file -> "") in
+    close_in ic;
+    Array.of_list (List.filter_map (fun r ->
+        match String.split_on_char '-' r with
+        | [a; b] -> Some (int_of_string a, int_of_string b)
+        | _ -> None) (String.split_on_char ',' line))
+let is_print_hi (r : n) : bool =
+  let x = int_of_n r in
+  let lo = ref 0 and hi = ref (Array.length isprint_ranges - 1) and res = ref false in
+  while !lo <= !hi do
+    let mid = (!lo + !hi) / 2 in
+    let (a, b) = isprint_ranges.(mid) in
+    if x < a then hi := mid - 1 else if x > b then lo := mid + 1 else (res := true; lo := !hi + 1)
+  done; !res
+let fmtg_tab : (string, string) Hashtbl.t =
+  let h = Hashtbl.create 64 in
+  (match Sys.getenv_opt "VERIF_FMTG" with
+   | None -> ()
+   | Some path ->
+     let ic = open_in path in
+     (try while true do
+          let l = input_line ic in
+          match String.split_on_char ' ' l with
+          | [bits; txt] -> Hashtbl.replace h bits (unhex_string txt)
+          | _ -> ()
+        done with End_of_file -> ());
+     close_in ic);
+  h
+let fmt_g (bits : n) : byte list =
+  let key = hex_of_blist (be_encode (nat_of_int 8) bits) in
+  match Hashtbl.find_opt fmtg_tab key with
+  | Some s -> bytes_of_string s
+  | None -> bytes_of_string ("<no-fmtg-" ^ key ^ ">")
+
+let eerr_class (e : eerr) : string =
+  match e with
+  | ETypeErr k -> "type:" ^ (match k with
+      | UChan -> "chan" | UFunc -> "func" | UComplex64 -> "complex64" | UComplex128 -> "complex128"
+      | UUintptr -> "uintptr" | UUnsafePointer -> "unsafe.Pointer")
+  | EP0Unicode -> "p0unicode" | EP0Persid -> "p0persid" | EP0123Global -> "p0123global"
+  | EBadProto -> "other"
+
+let run_enc (proto : string) (su : string) (failat : string) (toks : string list) : string =
+  let (v, _) = parse_rval toks in
+  let cfg = { e_proto = z_of_dec proto; e_strict = (su = "1"); e_isprint = is_print_hi; e_fmtg = fmt_g } in
+  let fa = (if failat = "-" then None else Some (nat_of_int (int_of_string failat))) in
+  let (ws, r) = run_w (encode cfg v) fa in
+  let all = List.concat ws in
+  let tail = Printf.sprintf " #writes=%d" (List.length ws) in
+  match r with
+  | EOk -> "ok " ^ hex_of_blist all ^ tail
+  | EErr e -> "err " ^ eerr_class e ^ " " ^ hex_of_blist all ^ tail
+  | EWriteErr -> "writeerr returned=1" ^ tail
+  | EPanic -> "panic" ^ tail
+
 let parse_one (toks : string list) : val0 * string list =
   parse_val toks
 
@@ -286,6 +469,18 @@ let handle (line : string) : string =
     Printf.sprintf "eq=%s ha=%s hb=%s samehash=%s pyeq=%s"
       (b01 (go_equal a b)) (b01 (hashable a)) (b01 (hashable b))
       (b01 (hash_same a b)) (b01 (py_eq a b))
+  | "conv" :: su :: rest ->
+    (* decode one pickle (PyDict off), then AsInt64 / AsString / AsBytes on the result *)
+    let hex = (match rest with [h] -> h | _ -> "") in
+    let cfg = cfg_of "0" su "0" in
+    (match decode cfg init_state (bytes_of_hex hex) with
+     | ((Ok v, st), _) ->
+       let i = (match as_int64 v with Some z -> "ok:" ^ string_of_bytes (dec_of_Z z) | None -> "err") in
+       let s = (match as_string v with Some b -> "ok:" ^ hex_of_blist b | None -> "err") in
+       let b = (match as_bytes v with Some b -> "ok:" ^ hex_of_blist b | None -> "err") in
+       Printf.sprintf "v=%s int=%s str=%s bytes=%s" (string_of_bytes (dump_val st.d_heap v)) i s b
+     | ((r, _), _) -> "decode " ^ show_res (fun _ -> "") r)
+  | "enc" :: proto :: su :: failat :: rest -> run_enc proto su failat rest
   | "dict" :: rest -> run_dict rest
   | "lookup" :: n :: rest -> run_lookup n rest
   | "declong" :: rest ->
